@@ -8,8 +8,12 @@ add("C01", "other",
     "to hand _compute_frame exactly the documented frames, for every frame length, shift <= length, chunk length and history, in all three framing "
     "modes; finalize is proved to emit exactly the remaining frames of the whole-signal specification (count and contents incl. the symmetric "
     "reflection, outside the one open known finding) and frame_by_frame_calculation to feed consecutive slices covering the signal once; so any "
-    "chunking followed by finalize equals compute_full by induction over chunks. The short-integration computer and value-level round-off are "
-    "decided by the bounded stand-in (chunked vs whole runs of the real code, exhaustive over small L, s, N)." + MIX, TB)
+    "chunking followed by finalize equals compute_full by induction over chunks. Short-integration computer: compute_chunk is proved to preserve "
+    "the overlap-save invariant (ring buffer = last D samples of the ghost stream; pending / filtered / emitted counters; frame count a function "
+    "of the samples pushed only) and to hand _fill_y_buf, for every DFT block, a window that ends exactly where the next filtered samples begin, "
+    "for every shift, support, DFT size, chunk length and history; _fill_y_buf accumulates every new sample exactly once into the right block at "
+    "the right window offset; finalize / compute_full reach the whole-signal frame count through compute_chunk's contract. Value-level round-off "
+    "(float32 included) and the FFT itself are decided by the bounded stand-in (chunked vs whole runs of the real code)." + MIX, TB)
 add("C02", "other",
     "Proved for all sizes and flags: compute_full returns NF(N) frames, each the documented sample range with symmetric reflection; _compute_frame's "
     "half-spectrum walk pairs every filter tap exactly once with full-spectrum bin (b0+j) mod D (conjugate-mirrored past Nyquist), with the doubling "
@@ -17,14 +21,23 @@ add("C02", "other",
     "proved for the triangular bank from its constructor's invariant. Numeric agreement with an independent full-DFT oracle and the default-frame-"
     "length clause are bounded." + MIX, TB)
 add("C03", "other",
-    "Bounded only at this commit: the short-integration coefficients are compared with a direct-convolution oracle written from the statement, over "
-    "banks x styles x flags x dtypes x lengths; no function of the SI computer is under contract yet (nested overlap-save loops; see DESIGN 10.5)." + MIX,
-    "runtime contracts on the real functions against an independent oracle (bounded stand-in; deductive obligations not built for this property)")
+    "Proved for every frame shift s >= 1, longest support M, DFT size D >= M + s - 1, chunk length and history (both frame styles): the overlap-save "
+    "bookkeeping of compute_chunk (each filtered sample produced exactly once, in order, from a window of D samples ending at that sample; asserts, "
+    "indices and buffer copies safe), _handle_skip and _compute_preamble (what an utterance starts from), _fill_y_buf (every new sample "
+    "accumulated once, into block (y_rem+i)//s at window offset (y_rem+i)%s, |y|^p of the inverse transform of X*filter), _compute_frame (frame "
+    "= first window half on the oldest block + second half on the next, log-floored; blocks shift by one), the transform helpers (DFT-size "
+    "points, double precision for every floating input dtype, complex128), and - under the property's hypothesis s < one-sided support - that "
+    "compute_full returns (N + s//2)//s frames. Assumed: numpy.fft is the DFT and the last D-M+1 outputs of a D-point circular convolution are "
+    "linear-convolution values (A-FFT); the constructor's geometry. The numeric agreement with a direct-convolution oracle over banks x styles x "
+    "flags x dtypes x lengths is bounded." + MIX, TB)
 add("C04", "other",
-    "Proved: finalize resets every per-utterance attribute to the constructor's value (constants read from __init__), the fresh state satisfies the "
+    "Proved: STFT finalize resets every per-utterance attribute to the constructor's value (constants read from __init__), the fresh state satisfies the "
     "data invariant of an empty utterance whatever the buffer holds, compute_full / frame_by_frame_calculation raise ValueError exactly when started "
-    "and write nothing before raising, compute_chunk establishes started, and no store reaches a parameter array (STFT). The short-integration "
-    "computer and arbitrary call histories are exercised by the bounded stand-in (bit-exact comparison with fresh instances)." + MIX, TB)
+    "and write nothing before raising, compute_chunk establishes started, and no store reaches a parameter array. Short-integration computer: "
+    "_compute_preamble leaves a mid-utterance state untouched and otherwise re-zeroes both buffers and sets the counters of an empty utterance "
+    "(ValueError exactly for a dtype change / non-float first chunk, nothing written before it); finalize clears started and the remembered dtype; "
+    "compute_full raises exactly when started. Arbitrary call histories are exercised by the bounded stand-in (bit-exact comparison with fresh "
+    "instances)." + MIX, TB)
 add("C05", "other",
     "Proved for the triangular bank against the CONTRACT of ScalingFunction (strictly increasing, mutually inverse maps - C19): vertices equally spaced "
     "on the scale, strictly increasing, from low_hz to min(high_hz, Nyquist); ValueError exactly for the stated bad ranges; the truncated response "
@@ -60,16 +73,19 @@ add("C12", "other",
     "both G.711 codings with and without expansion; both G.711 tables equal the ITU-T expansion on all 256 codes (exhaustive). Header parsing and "
     "real files are bounded." + MIX, TB)
 add("C13", "other",
-    "Bounded only at this commit: round trips through an independent shorten encoder (all commands, versions 1-2, channel counts, block sizes, bit "
-    "shifts, mean lengths), the six sph2pipe vectors, and the error classes; the bit reader is not under contract (DESIGN 10.5)." + MIX,
-    "runtime contracts on the real functions against an independent encoder (bounded stand-in; deductive obligations not built for this property)")
+    "Proved (bit-vector VCs generated from the AST of the nested functions by guarded unrolling, one query per reader state): uvar_get(nbin) returns "
+    "q * 2^nbin + field for a code of q zeros, a one and nbin bits, consumes exactly q + 1 + nbin bits and leaves the unread bits of its word "
+    "buffer equal to the next bits of the stream, for every buffer fill 0..32, every field width 0..32 and every following words, for unary runs "
+    "q <= 8 (quick) / 24 (thorough); var_get is the zig-zag inverse of uvar_get(nbin+1); masktab[n] has the n low bits set. Everything else of "
+    "the decoder (commands, predictors, running means, bit shifts, mu-law tables, error classes) is decided by the bounded stand-in: round trips "
+    "through an independent encoder, the six sph2pipe vectors, exhaustive checks of the arithmetic helpers." + MIX, TB)
 add("C14", "other",
     "Proved: pytorch_stft_frame_computer against the same specification as the NumPy computer, for every length/shift/DFT size/flag in the three "
     "framing modes and N >= L or N < L//2+1: frame count and empty shape, padded signal = spec frames, as_strided memory safety, the mirrored walk, "
     "per-column values and energy. float32, TorchScript, the wrappers and dither moments are bounded." + MIX, TB)
 add("C15", "other",
     "Bounded only at this commit: Deltas and Stack against index-map oracles over ranks 1-4, axes of either sign, padding modes (including "
-    "width-dependent ones), dtypes; N-D tensor code is outside the 1-D array model of the VC generator (DESIGN 10.5)." + MIX,
+    "width-dependent ones), dtypes, one instance reused across inputs; N-D tensor code is outside the 1-D array model of the VC generator (DESIGN 10.2)." + MIX,
     "runtime contracts on the real functions against index-map oracles (bounded stand-in; deductive obligations not built for this property)")
 add("C16", "other",
     "Proved for vectors: _accumulate_vector adds (1, x, x^2) to the statistics (additivity), preserves the class invariant (integer count, "
